@@ -597,3 +597,18 @@ Proof.
   destruct (should_delete pr) eqn:Ed; [|discriminate Hr].
   exists pr. repeat split; auto. eapply process_segment_deleted; eassumption.
 Qed.
+
+(* the table, pinned: rfc_edge is exactly "stay" or one of these fourteen pairs *)
+Definition rfc_table : list (state * state) :=
+  [(SynSent, SynReceived); (SynSent, Established); (SynReceived, Established);
+   (SynReceived, FinWait1); (Established, FinWait1); (Established, CloseWait);
+   (SynReceived, CloseWait); (FinWait1, FinWait2); (FinWait1, Closing); (FinWait1, TimeWait);
+   (FinWait2, TimeWait); (CloseWait, LastAck); (Closing, TimeWait); (SynSent, CloseWait)].
+Lemma rfc_edge_table a b : rfc_edge a b = true <-> a = b \/ In (a, b) rfc_table.
+Proof.
+  split.
+  - destruct a, b; cbn; intros H; try discriminate H; auto; right; intuition congruence.
+  - intros [->|H]; [apply rfc_edge_refl|].
+    unfold rfc_table in H. cbn [In] in H.
+    repeat (destruct H as [H|H]; [inversion H; subst; reflexivity|]). destruct H.
+Qed.
